@@ -185,6 +185,12 @@ extern "C" int harness_main()
 {
 	config cfg;
 	cfg.mtu = MTU;
+#if MTU != 3
+	// the path MTU is a property of the address *pair*: a node's path to itself reports the default, so a lookup
+	// with the wrong pair (self, self) shows as an over-long segment
+	cfg.mtu_tab[std::make_pair(CA, CA)] = 1475;
+	cfg.mtu_tab[std::make_pair(SA, SA)] = 1475;
+#endif
 	simulation s(cfg);
 	asio::io_context& tios = s.get_io_context();
 	// the network between the two nodes: an infinitely fast, zero-latency link (still asynchronous: a queue
